@@ -130,3 +130,17 @@ def reset_replayer(env_reset, ctx, key_sv, pred, n=512, what="reset"):
                           "the model's draws (all within their documented contracts), all other equations on real primitives" % (n - 1), "observed": detail}
         return False, {"note": "neither a real key nor the stub-draw execution reproduces the model"}
     return replay
+
+
+def key_variants(state_np, n=256, start=0):
+    """generator: the same state with every PRNG-key leaf (uint32[2] leaf whose path mentions 'key') replaced by the real keys
+    PRNGKey(start..start+n-1).  The jax.random stubs leave every draw arbitrary within its contract, so the PRNG key the
+    solver happens to put into the model need not realise the modelled draw on the real sampler; a violation that depends on a
+    draw is therefore replayed by searching real keys for one whose REAL execution violates the same obligation."""
+    paths = [jax.tree_util.keystr(p) for p, x in jax.tree_util.tree_leaves_with_path(state_np)
+             if "key" in jax.tree_util.keystr(p).lower() and np.asarray(x).dtype == np.uint32 and np.asarray(x).shape == (2,)]
+    if not paths:
+        return
+    for i in range(start, start + n):
+        k = np.asarray(jax.random.key_data(jax.random.PRNGKey(i)) if hasattr(jax.random, "key_data") else jax.random.PRNGKey(i)).astype(np.uint32)
+        yield i, jax.tree_util.tree_map_with_path(lambda p, x: k if jax.tree_util.keystr(p) in paths else x, state_np)
